@@ -127,6 +127,10 @@ theorem deregistered_harmless (tr : List Act) (i d : Nat)
   have hex := hR.reg.dereg_exited d i hdq
   exact ⟨hex, hR.reg.dereg_unreg d i hdq, exited_inert hR.all hex⟩
 
+/-- **T1**: the decisive source lines still have the shape the model's rules were written from
+(regenerated from /repo by tools/spans/rt.py on every check) -/
+theorem source_shape : sourceShapeC09 = true := by decide
+
 /-! ### non-vacuity: concrete schedules exercising the hypotheses -/
 
 /-- two arbiters; arbiter 1 stopped early and fully deregistered; stop 7 then stop 9 -/
